@@ -5,6 +5,7 @@ From Coq.Strings Require Import Byte.
 From TQ Require Import Base64 Base64Proofs Labels LabelsProofs PyStm PyPreludeLabels.
 Import ListNotations.
 Open Scope N_scope.
+Open Scope list_scope.
 
 (* ---------------------------------------------------------------- base64 text is ASCII: .decode() is the identity on it *)
 Lemma b64encode_ascii : forall bs, forallb (fun c => c <? 128) (b64encode bs) = true.
@@ -46,12 +47,12 @@ Proof.
   rewrite <- Q. now apply in_map.
 Qed.
 
-(* ---------------------------------------------------------------- the statement monad without effects *)
+(* ---------------------------------------------------------------- the statement monad *)
 Section Monad.
-  Context {R A B : Type}.
-  Lemma sbind_next : forall (a : A) (f : A -> stm Empty_set unit R B), sbind (next a) f = f a.
+  Context {E X R A B : Type}.
+  Lemma sbind_next : forall (a : A) (f : A -> stm E X R B), sbind (next a) f = f a.
   Proof. intros a f. unfold sbind, next, ret, bind. destruct (f a) as [es o]. reflexivity. Qed.
-  Lemma sbind_raise : forall (f : A -> stm Empty_set unit R B), sbind (raise_ tt) f = raise_ tt.
+  Lemma sbind_raise : forall (x : X) (f : A -> stm E X R B), sbind (raise_ x) f = raise_ x.
   Proof. reflexivity. Qed.
 End Monad.
 
@@ -101,7 +102,7 @@ Section Loop.
       rewrite (INV k) by (left; reflexivity).
       inversion ND as [|? ? Hk ND']; subst.
       destruct (dget k raw) as [s|] eqn:D; cbn [option_map].
-      + rewrite pl_ok. destruct (Labels.parse_label fos s t) as [v|]; [|apply sbind_raise].
+      + rewrite pl_ok. destruct (Labels.parse_label fos s t) as [v|]; [|apply (sbind_raise tt)].
         rewrite sbind_next. unfold tmsg_setitem_labels. cbn [tm_labels tm_types].
         apply IH; [exact ND'|].
         intros k' I. rewrite dget_dset_other; [apply INV; right; exact I|].
@@ -113,3 +114,74 @@ End Loop.
 (* keys of the type dictionary _prepare_message builds *)
 Lemma keys_map_snd {A B} : forall (f : key * A -> B) (d : dict A), keys (map (fun kv => (fst kv, f kv)) d) = keys d.
 Proof. intros f d. unfold keys. rewrite map_map. reflexivity. Qed.
+
+(* ---------------------------------------------------------------- the send side: for label, val in d.items():
+   labels[label], labels_types[label] = prepare_label(val) *)
+Definition rawd (sof : Z -> pstr) (d : dict lval) : dict pstr := map (fun kv => (fst kv, fst (prepare_label sof (snd kv)))) d.
+Definition typd (sof : Z -> pstr) (d : dict lval) : dict N := map (fun kv => (fst kv, snd (prepare_label sof (snd kv)))) d.
+
+Lemma prepare_labels_rawd_typd : forall sof d, prepare_labels sof d = mkWire (rawd sof d) (Some (typd sof d)).
+Proof. reflexivity. Qed.
+
+Section PrepLoop.
+  Context {E X R : Type}.
+  Variable sof : Z -> pstr.
+  (* one iteration; the loop state is the pair (labels, labels_types) *)
+  Definition prep_step (kv : key * lval) (st : dict pstr * dict N) : stm E X R (dict pstr * dict N) :=
+    next (dset (fst kv) (fst (prepare_label sof (snd kv))) (fst st), dset (fst kv) (snd (prepare_label sof (snd kv))) (snd st)).
+  Variable body : key * lval -> dict pstr * dict N -> stm E X R (dict pstr * dict N).
+  Hypothesis body_ok : forall kv st, body kv st = prep_step kv st.
+
+  (* the source dict is a Python dict: keys pairwise different, so every store appends *)
+  Lemma for_prep_loop : forall (d d1 : dict lval), NoDup (keys (d1 ++ d)) ->
+    for_ d body (rawd sof d1, typd sof d1) = next (rawd sof (d1 ++ d), typd sof (d1 ++ d)).
+  Proof.
+    induction d as [|[k v] d IH]; intros d1 ND.
+    - cbn [for_]. now rewrite app_nil_r.
+    - assert (Hk : ~ In k (keys d1)).
+      { unfold keys in ND. rewrite map_app in ND. apply NoDup_remove_2 in ND.
+        intro I. apply ND. apply in_or_app. now left. }
+      cbn [for_]. rewrite body_ok. unfold prep_step. cbn [fst snd]. rewrite sbind_next.
+      assert (A1 : dset k (fst (prepare_label sof v)) (rawd sof d1) = rawd sof (d1 ++ [(k, v)])).
+      { rewrite <- (app_nil_r (rawd sof d1)). rewrite dset_app_notin by (unfold rawd; rewrite keys_map_snd; exact Hk).
+        unfold rawd. rewrite map_app. reflexivity. }
+      assert (A2 : dset k (snd (prepare_label sof v)) (typd sof d1) = typd sof (d1 ++ [(k, v)])).
+      { rewrite <- (app_nil_r (typd sof d1)). rewrite dset_app_notin by (unfold typd; rewrite keys_map_snd; exact Hk).
+        unfold typd. rewrite map_app. reflexivity. }
+      rewrite A1, A2. specialize (IH (d1 ++ [(k, v)])). rewrite <- app_assoc in IH. cbn [app] in IH. exact (IH ND).
+  Qed.
+
+  Corollary for_prep_loop_nil : forall d, NoDup (keys d) -> for_ d body ([], []) = next (rawd sof d, typd sof d).
+  Proof. intros d ND. exact (for_prep_loop d [] ND). Qed.
+End PrepLoop.
+
+(* the same loop when the two local names sort the other way round: the state is (labels_types, labels) *)
+Section PrepLoopSw.
+  Context {E X R : Type}.
+  Variable sof : Z -> pstr.
+  Definition prep_step_sw (kv : key * lval) (st : dict N * dict pstr) : stm E X R (dict N * dict pstr) :=
+    next (dset (fst kv) (snd (prepare_label sof (snd kv))) (fst st), dset (fst kv) (fst (prepare_label sof (snd kv))) (snd st)).
+  Variable body : key * lval -> dict N * dict pstr -> stm E X R (dict N * dict pstr).
+  Hypothesis body_ok : forall kv st, body kv st = prep_step_sw kv st.
+
+  Lemma for_prep_loop_sw : forall (d d1 : dict lval), NoDup (keys (d1 ++ d)) ->
+    for_ d body (typd sof d1, rawd sof d1) = next (typd sof (d1 ++ d), rawd sof (d1 ++ d)).
+  Proof.
+    induction d as [|[k v] d IH]; intros d1 ND.
+    - cbn [for_]. now rewrite app_nil_r.
+    - assert (Hk : ~ In k (keys d1)).
+      { unfold keys in ND. rewrite map_app in ND. apply NoDup_remove_2 in ND.
+        intro I. apply ND. apply in_or_app. now left. }
+      cbn [for_]. rewrite body_ok. unfold prep_step_sw. cbn [fst snd]. rewrite sbind_next.
+      assert (A1 : dset k (fst (prepare_label sof v)) (rawd sof d1) = rawd sof (d1 ++ [(k, v)])).
+      { rewrite <- (app_nil_r (rawd sof d1)). rewrite dset_app_notin by (unfold rawd; rewrite keys_map_snd; exact Hk).
+        unfold rawd. rewrite map_app. reflexivity. }
+      assert (A2 : dset k (snd (prepare_label sof v)) (typd sof d1) = typd sof (d1 ++ [(k, v)])).
+      { rewrite <- (app_nil_r (typd sof d1)). rewrite dset_app_notin by (unfold typd; rewrite keys_map_snd; exact Hk).
+        unfold typd. rewrite map_app. reflexivity. }
+      rewrite A1, A2. specialize (IH (d1 ++ [(k, v)])). rewrite <- app_assoc in IH. cbn [app] in IH. exact (IH ND).
+  Qed.
+
+  Corollary for_prep_loop_sw_nil : forall d, NoDup (keys d) -> for_ d body ([], []) = next (typd sof d, rawd sof d).
+  Proof. intros d ND. exact (for_prep_loop_sw d [] ND). Qed.
+End PrepLoopSw.
